@@ -73,6 +73,8 @@ def main(tier, only=None):
             e1.H("h_search_cache", "search/cache-include-next", unwind=30, timeout=300),
             e1.H("h_include_dquote", "search/include-dquote", unwind=30, timeout=300, defines=("HK_inc",),
                  replace_calls=("include_file:stub_include_file", "expand_macro:stub_expand_macro")),
+            e1.H("h_include_dquote_two_includers", "search/include-dquote-two-includers", unwind=30, timeout=300, defines=("HK_inc",),
+                 replace_calls=("include_file:stub_include_file", "expand_macro:stub_expand_macro")),
             e1.H("h_include_angle", "search/include-angle", unwind=30, timeout=300, defines=("HK_inc",),
                  replace_calls=("include_file:stub_include_file", "expand_macro:stub_expand_macro")),
         ]
